@@ -255,6 +255,13 @@ class gclmulchunker(ChunkerAdapter):
     alignment = 4
 
     def __init__(self, *, min_length=MIN_LENGTH, max_length=MAX_LENGTH):
+        for length in (min_length, max_length):
+            if not isinstance(length, int) or length < 0:
+                raise ValueError('Chunk lengths must be non-negative integers')
+
+        if max_length < 1:
+            raise ValueError('Maximum length must be positive')
+
         if min_length > max_length:
             raise ValueError(
                 f'Minimum length ({min_length}) is greater '
